@@ -336,8 +336,8 @@ def run(R):
               "inconsistent backing functions indexed by occurrence) issued directly to memoising / non-memoising elicitors in both index conventions, "
               "compared with the Lean state machine. Non-trivial = m>=3 (a) / a repeated question (b).")
     R.assumptions = ["ambiguous = a probed value between an exact threshold and its float rounding"]
-    run_items(R, gen_items(R, 4000 if R.thorough else 130))
-    run_machine(R, 20000 if R.thorough else 500)
+    run_items(R, gen_items(R, 4000 if R.thorough else 300))
+    run_machine(R, 20000 if R.thorough else 1200)
 
 
 def replay(R, rep):
